@@ -77,4 +77,28 @@ example : scope ⟨"/u/", "/u/cal/", [("/u/cal/a/", ["/u/cal/a/x.ics"])]⟩ "/u/
     scope ⟨"/u/", "/u/cal/", [("/u/cal/a/", ["/u/cal/a/x.ics"])]⟩ "/u/cal/" .homeSet .infinity = ["/u/cal/", "/u/cal/a/", "/u/cal/a/x.ics"] := by
   decide
 
+section Options
+open GoWebdav.Impl.Frontend
+
+/-- OPTIONS follows the level like every other method: only at object depth is an object looked up, and only there are
+    the object's methods announced; every other depth — the deeper ones included — gets the collection-side answer
+    (collections can be created and listed from there, nothing can be PUT) without any object look-up -/
+theorem C12_options_by_level (r : Req) :
+    (r.level ≠ 4 → (options r).objectReads = 0 ∧ "MKCOL" ∈ (options r).allow ∧ "PUT" ∉ (options r).allow ∧ "GET" ∉ (options r).allow) ∧
+    (r.level = 4 → (options r).objectReads = 1 ∧ "PUT" ∈ (options r).allow ∧ "MKCOL" ∉ (options r).allow ∧
+      ("GET" ∈ (options r).allow ↔ r.exists_ = true)) := by
+  constructor
+  · intro h; simp [options, optionsK, h]
+  · intro h; cases he : r.exists_ <;> simp [options, optionsK, h, he]
+
+/-- the answer to OPTIONS depends on nothing but the level and, at object level, the object's existence: not on the
+    content type, the body, or any header class of the request -/
+theorem C12_options_depends_on_level_only (r r' : Req) (hl : r.level = r'.level) (he : r.exists_ = r'.exists_) :
+    options r = options r' := by simp [options, hl, he]
+
+-- non-vacuity: the three answers exist
+example : (optionsK 5 true).objectReads = 0 ∧ (optionsK 4 true).allow.length = 6 ∧ (optionsK 4 false).allow = ["OPTIONS", "PUT"] := by decide
+
+end Options
+
 end GoWebdav.Props.C12
